@@ -6,7 +6,7 @@ Local Open Scope Z_scope.
 Inductive cksum := CNil | CBool (b : bool) | COther (kind : N).
 Record config := { address : list N; user : list N; password : list N; key : list N; port : N;
                    heartbeat : Z; conn_to : Z; send_to : Z; recv_to : Z;
-                   use_checksum : cksum; rbuf : N }.
+                   use_checksum : cksum; rbuf_blocks : N }.
 Inductive field := FAddress | FUser | FPassword | FKey.
 Inductive cerr := Missing (fs : list field) | BadChecksum (kind : N).
 
@@ -32,7 +32,7 @@ Definition check (c : config) : config + cerr :=
              send_to := if send_to c <=? 0 then 3 * second else send_to c;
              recv_to := if recv_to c <=? 0 then 3 * second else recv_to c;
              use_checksum := match ck with CNil => CBool true | x => x end;
-             rbuf := if ((rbuf c =? 0) || (max_blocks <? rbuf c))%N then 1%N else rbuf c |}
+             rbuf_blocks := if ((rbuf_blocks c =? 0) || (max_blocks <? rbuf_blocks c))%N then 1%N else rbuf_blocks c |}
     end
   end.
 
@@ -71,15 +71,15 @@ Theorem C16_defaults c c' : check c = inl c' ->
   (conn_to c <= 0 -> conn_to c' = 3 * second) /\ (send_to c <= 0 -> send_to c' = 3 * second) /\
   (recv_to c <= 0 -> recv_to c' = 3 * second) /\
   (0 < conn_to c -> conn_to c' = conn_to c) /\ (0 < send_to c -> send_to c' = send_to c) /\ (0 < recv_to c -> recv_to c' = recv_to c) /\
-  (1 <= rbuf c' <= max_blocks)%N /\ ((1 <= rbuf c <= max_blocks)%N -> rbuf c' = rbuf c) /\
+  (1 <= rbuf_blocks c' <= max_blocks)%N /\ ((1 <= rbuf_blocks c <= max_blocks)%N -> rbuf_blocks c' = rbuf_blocks c) /\
   length (key_of c') = 32%nat /\ key_of c' = key_of c.
 Proof.
   unfold check. destruct (missing c); [|discriminate].
-  destruct (use_checksum c) eqn:Ek; [| |discriminate]; intros [= <-]; cbn [port use_checksum conn_to send_to recv_to rbuf key key_of];
+  destruct (use_checksum c) eqn:Ek; [| |discriminate]; intros [= <-]; cbn [port use_checksum conn_to send_to recv_to rbuf_blocks key key_of];
     unfold second, max_blocks, key_of;
     (repeat split; try reflexivity;
      try (destruct (Z.leb_spec (conn_to c) 0); lia); try (destruct (Z.leb_spec (send_to c) 0); lia); try (destruct (Z.leb_spec (recv_to c) 0); lia);
-     try (destruct (N.eqb_spec (rbuf c) 0); destruct (N.ltb_spec 2049 (rbuf c)); cbn [orb]; lia);
+     try (destruct (N.eqb_spec (rbuf_blocks c) 0); destruct (N.ltb_spec 2049 (rbuf_blocks c)); cbn [orb]; lia);
      try (rewrite firstn_length, app_length, repeat_length; lia)).
 Qed.
 
